@@ -93,6 +93,11 @@ def setting(rng):
         x0 = prob_state(rng, dims)
         nz = int(rng.integers(0, 3))
         cplx = False
+        if rng.random() < 0.6:
+            # a non-negative initial state that is NOT normalised: Markov generators conserve the sum of the entries, so with a
+            # normalised start "normalize=1" and "no normalisation" cannot be told apart
+            with probe.oracle():
+                x0 = float(rng.uniform(0.3, 3.0)) * x0
     else:
         cplx = bool(rng.integers(0, 2))
         A = general_operator(rng, dims, cplx)
